@@ -1709,7 +1709,8 @@ func (c *Case) oracle(o *Obs) (string, string) {
 	}
 	// the caller's modifier is applied exactly once to every state the checkpoint holds, and to
 	// nothing else
-	if c.Interrupt != nil {
+	// (a run that fails may fail before a pending nested graph has been resumed)
+	if c.Interrupt != nil && !c.mustFail() {
 		for _, r := range o.Resumes {
 			var want []int
 			if c.Interrupt.Modifier {
